@@ -2,34 +2,82 @@
    "strings up to 2^(8*length-size)-1 bytes … Reaching a limit makes the operation fail cleanly (false or NoMemory,
     overflowed() set) with the document intact; slot identifiers, lengths and reference counts never wrap."
 
-   FINDING about the model: `DL.Doc.saveString` has NO length limit (`PL.Geo` has no field for
-   ARDUINOJSON_STRING_LENGTH_SIZE; the limit `maxStrLen` exists only in the deserializer models `JD`/`MD`). The target
-   "`saveString s` with `s.length > maxStrLen` returns `none`" is therefore false of the model:
-   `model_has_no_string_length_limit` — a copy of ANY length succeeds when the allocator does not fail. What is true, and
-   proved here, is the clean-failure half for the only failure the model has (the allocator):
-   `string_copy_fails_only_on_allocator_failure`, `string_copy_fails_cleanly`, `copied_string_set_fails_cleanly`.
+   The slot-level model has the limit: `Doc.maxStrLen` (= `StringNode::maxLength` = 2^(8·STRING_LENGTH_SIZE) − 1, 65535 by
+   default, a construction-time constant that no operation changes: `DL.SameId`, `limit_constant_history`). `Doc.saveString` refuses a NEW string
+   longer than that WITHOUT calling the allocator and sets the overflow flag (`StringNode::create` +
+   `ResourceManager::saveString`); a string that is already stored is shared whatever its length (it was stored, so it is
+   within the limit in every reachable document). The copy therefore has exactly two causes of failure
+   (`string_copy_fails_iff`): the length limit and the allocator. Both are clean:
+   * the limit is a clean edge: `string_length_limit_is_clean_edge` (the result IS `{ d with overflowed := true }`: allocator
+     state, log, call counter, string table, cells, root, node counter untouched), `string_length_limit_keeps_invariants`
+     (`WFG`, `StrOK`, `Exact`, `Bal`, `BytesNodup`, same abstract value); one byte less and the copy succeeds:
+     `string_at_limit_succeeds`; after the failure the document is as usable as before: `usable_after_length_failure`;
+   * the allocator: `string_copy_fails_cleanly` (exactly one failed allocate of the documented size is logged);
+   * either cause: `string_copy_failure_is_clean`;
+   * document level: `copied_string_set_fails_cleanly`, `raw_string_set_fails_cleanly` (either cause),
+     `copied_string_too_long_fails_cleanly`, `raw_string_too_long_fails_cleanly` (the limit: no allocator call, the target
+     stays null), `key_too_long_fails_cleanly` (`getOrAddMember` with a too-long copied key: `none`, flag set, same abstract
+     document, same strings; the two slots obtained for the member before the key is copied stay allocated — as in the
+     library — which the invariant `WFG` allows: live slots may be unreachable).
 
    Reference counts: `refcount_never_wraps` (a counter is at most the number of live slots, which is at most
    `nullSlot = 2^(8·idBytes) − 1`), for every document reachable by a history: `refcount_never_wraps_history`. `StrOK`
    alone (counter ≥ number of references) does not bound the counters: `refcount_needs_exact`. -/
 import AJ.Props.C06Doc
+import AJ.Lemmas.DocCopy
+import AJ.Lemmas.DocAlloc
 namespace C19
 open DL
 open JD (Byte Val)
 open C04 (Op Hist)
 
-/-! ## The string copy: its only failure is the allocator's, and it is clean -/
+/-! ## The string copy: it fails on the length limit or on the allocator, and both failures are clean -/
 
-/-- FINDING: the slot-level document model has no string length limit: when no node holds these bytes and the next
-    allocator call does not fail, the copy succeeds whatever the length (so "reaching the length limit fails cleanly"
-    cannot be stated for `DL`). -/
-theorem model_has_no_string_length_limit (d : Doc) (s : List Byte) (hnew : ∀ x ∈ d.strings, x.bytes ≠ s)
-    (hok : d.pl.failsAt (d.pl.calls + 1) = false) : (d.saveString s).1 = some d.nextNode :=
-  (C06.new_string_one_block hnew hok).1
+theorem find_none_of_new {d : Doc} {s : List Byte} (hnew : ∀ x ∈ d.strings, x.bytes ≠ s) :
+    d.strings.find? (·.bytes == s) = none := by
+  rw [List.find?_eq_none]; intro x hx; simpa using hnew x hx
 
-/-- the copy fails exactly when the bytes are not stored yet and the allocator call fails -/
-theorem string_copy_fails_only_on_allocator_failure (d : Doc) (s : List Byte) :
-    (d.saveString s).1 = none ↔ (∀ x ∈ d.strings, x.bytes ≠ s) ∧ d.pl.failsAt (d.pl.calls + 1) = true := by
+/-- THE LIMIT IS A CLEAN EDGE. A new string longer than `maxStrLen` is refused: `none`, and the document that comes back
+    is the old one with the overflow flag set - the allocator was not called (state, log and call counter of `pl` are
+    literally the same), string table, cells, root, node counter, geometry and the limit itself are unchanged. -/
+theorem string_length_limit_is_clean_edge (d : Doc) (s : List Byte) (hnew : ∀ x ∈ d.strings, x.bytes ≠ s)
+    (hlong : d.maxStrLen < s.length) :
+    (d.saveString s).1 = none ∧ (d.saveString s).2 = { d with overflowed := true } ∧
+    (d.saveString s).2.overflowed = true ∧ (d.saveString s).2.pl = d.pl ∧
+    (d.saveString s).2.pl.log = d.pl.log ∧ (d.saveString s).2.pl.calls = d.pl.calls ∧
+    (d.saveString s).2.strings = d.strings ∧ (d.saveString s).2.cells = d.cells ∧ (d.saveString s).2.root = d.root ∧
+    (d.saveString s).2.nextNode = d.nextNode ∧ (d.saveString s).2.g = d.g ∧
+    (d.saveString s).2.maxStrLen = d.maxStrLen := by
+  rw [saveString_long (find_none_of_new hnew) hlong]
+  exact ⟨rfl, rfl, rfl, rfl, rfl, rfl, rfl, rfl, rfl, rfl, rfl, rfl⟩
+
+/-- … so every invariant of the document survives: well-formedness over the same forest, the string table invariants
+    (`StrOK`, exact counts, one node per byte string), the allocator ledger, and the abstract value. -/
+theorem string_length_limit_keeps_invariants {d : Doc} {F : Forest} {s : List Byte} (w : WFG d F)
+    (hs : StrOK d (d.strRefs F)) (hnew : ∀ x ∈ d.strings, x.bytes ≠ s) (hlong : d.maxStrLen < s.length) :
+    WFG (d.saveString s).2 F ∧ StrOK (d.saveString s).2 ((d.saveString s).2.strRefs F) ∧
+    abs (d.saveString s).2 = abs d ∧
+    (Exact d (d.strRefs F) → Exact (d.saveString s).2 ((d.saveString s).2.strRefs F)) ∧
+    (Bal d → Bal (d.saveString s).2) ∧ (BytesNodup d → BytesNodup (d.saveString s).2) ∧
+    (∀ x, PL.live (d.saveString s).2.g (d.saveString s).2.pl x ↔ PL.live d.g d.pl x) := by
+  have e := saveString_long (find_none_of_new hnew) hlong
+  obtain ⟨hg, _, hlv⟩ := saveString_none w.pool e
+  obtain ⟨a, b, c⟩ := wfg_of_grow w hs hg
+  rw [e]
+  exact ⟨a, b, c, fun h => h, fun h => h, fun h => h, hlv⟩
+
+/-- AT THE LIMIT (and below) the copy of a new string succeeds when the next allocator call does not fail: the limit is
+    exactly `maxStrLen`, the longest storable length. -/
+theorem string_at_limit_succeeds (d : Doc) (s : List Byte) (hnew : ∀ x ∈ d.strings, x.bytes ≠ s)
+    (hlen : s.length ≤ d.maxStrLen) (hok : d.pl.failsAt (d.pl.calls + 1) = false) :
+    (d.saveString s).1 = some d.nextNode :=
+  (C06.new_string_one_block hnew hlen hok).1
+
+/-- the copy fails exactly when the bytes are not stored yet and either they are longer than the limit or the allocator
+    call fails -/
+theorem string_copy_fails_iff (d : Doc) (s : List Byte) :
+    (d.saveString s).1 = none ↔
+      (∀ x ∈ d.strings, x.bytes ≠ s) ∧ (d.maxStrLen < s.length ∨ d.pl.failsAt (d.pl.calls + 1) = true) := by
   cases hf : d.strings.find? (·.bytes == s) with
   | some x =>
     rw [saveString_found hf]
@@ -41,15 +89,30 @@ theorem string_copy_fails_only_on_allocator_failure (d : Doc) (s : List Byte) :
   | none =>
     have hnew : ∀ x ∈ d.strings, x.bytes ≠ s := by
       intro x hx; simpa using List.find?_eq_none.1 hf x hx
-    rw [saveString_new hf]
-    cases hfail : d.pl.failsAt (d.pl.calls + 1)
-    · simp
-    · simp only [if_true, true_iff]; exact ⟨hnew, trivial⟩
+    by_cases hlong : d.maxStrLen < s.length
+    · rw [saveString_long hf hlong]
+      exact ⟨fun _ => ⟨hnew, Or.inl hlong⟩, fun _ => rfl⟩
+    · rw [saveString_short hf (Nat.le_of_not_lt hlong)]
+      cases hfail : d.pl.failsAt (d.pl.calls + 1)
+      · simp only [Bool.false_eq_true, if_false, or_false]
+        exact ⟨(fun h => by cases h), fun h => absurd h.2 hlong⟩
+      · simp only [if_true, true_iff]; exact ⟨hnew, Or.inr trivial⟩
 
-/-- A failed string copy is clean: the overflow flag is set and NOTHING else of the document changes — cells, root,
-    string table, node counter — and of the pool only the call counter and the log move: one failed allocate of the
-    documented size. -/
-theorem string_copy_fails_cleanly {d : Doc} {s : List Byte} (hf : (d.saveString s).1 = none) :
+/-- within the limit the only failure is the allocator's -/
+theorem string_copy_fails_only_on_allocator_failure (d : Doc) (s : List Byte) (hlen : s.length ≤ d.maxStrLen) :
+    (d.saveString s).1 = none ↔ (∀ x ∈ d.strings, x.bytes ≠ s) ∧ d.pl.failsAt (d.pl.calls + 1) = true := by
+  rw [string_copy_fails_iff]
+  constructor
+  · rintro ⟨a, b | b⟩
+    · omega
+    · exact ⟨a, b⟩
+  · rintro ⟨a, b⟩; exact ⟨a, Or.inr b⟩
+
+/-- A string copy (within the length limit) that fails is clean: the overflow flag is set and NOTHING else of the document
+    changes — cells, root, string table, node counter — and of the pool only the call counter and the log move: one failed
+    allocate of the documented size. -/
+theorem string_copy_fails_cleanly {d : Doc} {s : List Byte} (hlen : s.length ≤ d.maxStrLen)
+    (hf : (d.saveString s).1 = none) :
     (d.saveString s).2.overflowed = true ∧ (d.saveString s).2.cells = d.cells ∧ (d.saveString s).2.root = d.root ∧
     (d.saveString s).2.strings = d.strings ∧ (d.saveString s).2.nextNode = d.nextNode ∧
     (d.saveString s).2.g = d.g ∧
@@ -57,13 +120,57 @@ theorem string_copy_fails_cleanly {d : Doc} {s : List Byte} (hf : (d.saveString 
     (d.saveString s).2.pl.tableCap = d.pl.tableCap ∧ (d.saveString s).2.pl.tableHeap = d.pl.tableHeap ∧
     (d.saveString s).2.pl.calls = d.pl.calls + 1 ∧
     (d.saveString s).2.pl.log = s!"A{s.length + d.strOverhead}!" :: d.pl.log := by
-  obtain ⟨hnew, hfail⟩ := (string_copy_fails_only_on_allocator_failure d s).1 hf
-  have hfind : d.strings.find? (·.bytes == s) = none := by
-    rw [List.find?_eq_none]; intro x hx; simpa using hnew x hx
-  rw [saveString_new hfind, hfail]
+  obtain ⟨hnew, hfail⟩ := (string_copy_fails_only_on_allocator_failure d s hlen).1 hf
+  rw [saveString_short (find_none_of_new hnew) hlen, hfail]
   refine ⟨rfl, rfl, rfl, rfl, rfl, rfl, rfl, rfl, rfl, rfl, rfl, ?_⟩
   show s!"A{s.length + d.strOverhead}{if d.pl.failsAt (d.pl.calls + 1) then "!" else ""}" :: d.pl.log = _
   rw [hfail]; rfl
+
+/-- A failed string copy, whatever its cause, is clean: the overflow flag is set; cells, root, string table, node counter,
+    geometry, limit and the pools are unchanged; the allocator either was not called at all (length limit) or logged one
+    failed allocate of the documented size. -/
+theorem string_copy_failure_is_clean {d : Doc} {s : List Byte} (hf : (d.saveString s).1 = none) :
+    (d.saveString s).2.overflowed = true ∧ (d.saveString s).2.cells = d.cells ∧ (d.saveString s).2.root = d.root ∧
+    (d.saveString s).2.strings = d.strings ∧ (d.saveString s).2.nextNode = d.nextNode ∧
+    (d.saveString s).2.g = d.g ∧ (d.saveString s).2.maxStrLen = d.maxStrLen ∧
+    (d.saveString s).2.pl.pools = d.pl.pools ∧ (d.saveString s).2.pl.free = d.pl.free ∧
+    (d.saveString s).2.pl.tableCap = d.pl.tableCap ∧ (d.saveString s).2.pl.tableHeap = d.pl.tableHeap ∧
+    ((d.maxStrLen < s.length ∧ (d.saveString s).2.pl = d.pl) ∨
+     (s.length ≤ d.maxStrLen ∧ (d.saveString s).2.pl.calls = d.pl.calls + 1 ∧
+      (d.saveString s).2.pl.log = s!"A{s.length + d.strOverhead}!" :: d.pl.log)) := by
+  by_cases hlong : d.maxStrLen < s.length
+  · obtain ⟨hnew, _⟩ := (string_copy_fails_iff d s).1 hf
+    obtain ⟨_, _, a1, a2, _, _, a3, a4, a5, a6, a7, a8⟩ := string_length_limit_is_clean_edge d s hnew hlong
+    exact ⟨a1, a4, a5, a3, a6, a7, a8, by rw [a2], by rw [a2], by rw [a2], by rw [a2], Or.inl ⟨hlong, a2⟩⟩
+  · have hlen := Nat.le_of_not_lt hlong
+    obtain ⟨a1, a2, a3, a4, a5, a6, a7, a8, a9, a10, a11, a12⟩ := string_copy_fails_cleanly hlen hf
+    exact ⟨a1, a2, a3, a4, a5, a6, (DL.sameId_saveString d s).2.2.2, a7, a8, a9, a10, Or.inr ⟨hlen, a11, a12⟩⟩
+
+/-- the flag does not influence the copy: with the flag set, `saveString` does the same and the flag stays set -/
+theorem saveString_flagged (d : Doc) (t : List Byte) :
+    ({ d with overflowed := true } : Doc).saveString t =
+      ((d.saveString t).1, { (d.saveString t).2 with overflowed := true }) := by
+  simp only [Doc.saveString]
+  split
+  · rfl
+  · split
+    · rfl
+    · generalize d.pl.alloc (t.length + d.strOverhead) = q
+      obtain ⟨ok, pl⟩ := q
+      cases ok <;> rfl
+
+/-- USABLE AFTER THE FAILURE. After a copy refused for its length the document stores strings exactly as before: any
+    further copy gives the result it would have given without the failed attempt (same node, same allocator traffic, same
+    table), only the sticky flag differs; in particular a new string within the limit is stored as soon as the allocator
+    does not fail. -/
+theorem usable_after_length_failure (d : Doc) (s t : List Byte) (hnew : ∀ x ∈ d.strings, x.bytes ≠ s)
+    (hlong : d.maxStrLen < s.length) :
+    ((d.saveString s).2.saveString t).1 = (d.saveString t).1 ∧
+    ((d.saveString s).2.saveString t).2 = { (d.saveString t).2 with overflowed := true } ∧
+    ((∀ x ∈ d.strings, x.bytes ≠ t) → t.length ≤ d.maxStrLen → d.pl.failsAt (d.pl.calls + 1) = false →
+      ((d.saveString s).2.saveString t).1 = some d.nextNode) := by
+  rw [saveString_long (find_none_of_new hnew) hlong, saveString_flagged]
+  exact ⟨rfl, rfl, fun h1 h2 h3 => string_at_limit_succeeds d t h1 h2 h3⟩
 
 /-- `set(copied string)` whose copy fails returns false with the overflow flag set; the document is well-formed, is
     the SAME abstract document, holds the same strings and the same live slots. -/
@@ -95,6 +202,101 @@ theorem raw_string_set_fails_cleanly {d : Doc} {F : Forest} {l : Loc} {s : List 
   obtain ⟨a, b, c⟩ := wfg_of_grow w hs hg
   simp only [Doc.setArg, hal, hov]
   exact ⟨rfl, trivial, a, b, c⟩
+
+/-! ## The length limit at the document level -/
+
+/-- `set(copied string)` (`set` = `clear`, then `setArg` on the cleared location) with a new string beyond the limit:
+    false, and the document is the old one with the flag set — no allocator call, same string table, every location
+    (in particular the cleared target, which stays null) holds what it held; well-formed, same abstract document. -/
+theorem copied_string_too_long_fails_cleanly {d : Doc} {F : Forest} {l : Loc} {s : List Byte} (w : WFG d F)
+    (hs : StrOK d (d.strRefs F)) (hnew : ∀ x ∈ d.strings, x.bytes ≠ s) (hlong : d.maxStrLen < s.length) :
+    (d.setArg l (.strCopied s)).1 = false ∧ (d.setArg l (.strCopied s)).2 = { d with overflowed := true } ∧
+    (d.setArg l (.strCopied s)).2.overflowed = true ∧
+    WFG (d.setArg l (.strCopied s)).2 F ∧
+    StrOK (d.setArg l (.strCopied s)).2 ((d.setArg l (.strCopied s)).2.strRefs F) ∧
+    abs (d.setArg l (.strCopied s)).2 = abs d ∧ (d.setArg l (.strCopied s)).2.pl = d.pl ∧
+    (d.setArg l (.strCopied s)).2.strings = d.strings ∧
+    (∀ l', (d.setArg l (.strCopied s)).2.get l' = d.get l') ∧
+    (d.get l = .null → (d.setArg l (.strCopied s)).2.get l = .null) := by
+  have e := saveString_long (find_none_of_new hnew) hlong
+  obtain ⟨a, b, c, _⟩ := string_length_limit_keeps_invariants w hs hnew hlong
+  rw [e] at a b c
+  have e2 : d.setArg l (.strCopied s) = (false, { d with overflowed := true }) := by
+    simp only [Doc.setArg, e]; rfl
+  rw [e2]
+  have hget : ∀ l', ({ d with overflowed := true } : Doc).get l' = d.get l' := fun l' => by cases l' <;> rfl
+  exact ⟨rfl, rfl, rfl, a, b, c, rfl, rfl, hget, fun h => (hget l).trans h⟩
+
+/-- the same for a raw (pre-serialized) value beyond the limit -/
+theorem raw_string_too_long_fails_cleanly {d : Doc} {F : Forest} {l : Loc} {s : List Byte} (w : WFG d F)
+    (hs : StrOK d (d.strRefs F)) (hnew : ∀ x ∈ d.strings, x.bytes ≠ s) (hlong : d.maxStrLen < s.length) :
+    (d.setArg l (.raw s)).1 = false ∧ (d.setArg l (.raw s)).2 = { d with overflowed := true } ∧
+    WFG (d.setArg l (.raw s)).2 F ∧ StrOK (d.setArg l (.raw s)).2 ((d.setArg l (.raw s)).2.strRefs F) ∧
+    abs (d.setArg l (.raw s)).2 = abs d := by
+  have e := saveString_long (find_none_of_new hnew) hlong
+  obtain ⟨a, b, c, _⟩ := string_length_limit_keeps_invariants w hs hnew hlong
+  rw [e] at a b c
+  have e2 : d.setArg l (.raw s) = (false, { d with overflowed := true }) := by
+    simp only [Doc.setArg, e]; rfl
+  rw [e2]
+  exact ⟨rfl, rfl, a, b, c⟩
+
+/-- `addMember` with a new copied key beyond the limit reports failure (whether or not the two slots could be obtained) -/
+theorem addMember_key_too_long (d : Doc) (l : Loc) (key : List Byte) (hnew : ∀ x ∈ d.strings, x.bytes ≠ key)
+    (hlong : d.maxStrLen < key.length) : (d.addMember l key false).1 = none := by
+  simp only [Doc.addMember]
+  have h1s := (allocVariant_pl_s d).2
+  have h1m := (sameId_allocVariant d).2.2.2
+  generalize d.allocVariant = r1 at h1s h1m ⊢
+  obtain ⟨m1, d1⟩ := r1
+  simp only at h1s h1m
+  cases m1 with
+  | none => rfl
+  | some k =>
+    simp only
+    have h2s := (allocVariant_pl_s d1).2
+    have h2m := (sameId_allocVariant d1).2.2.2
+    generalize d1.allocVariant = r2 at h2s h2m ⊢
+    obtain ⟨m2, d2⟩ := r2
+    simp only at h2s h2m
+    cases m2 with
+    | none => rfl
+    | some v =>
+      simp only [Bool.false_eq_true, if_false]
+      rw [saveString_long (d := d2) (find_none_of_new (by rw [h2s, h1s]; exact hnew)) (by rw [h2m, h1m]; exact hlong)]
+
+/-- `object[key]` with a new COPIED key beyond the limit, on an object that has no such member: `none`, flag set; the
+    document is well-formed over the same forest, is the same abstract document and has the same string table and limit.
+    (The slots obtained for the member before the key is copied stay allocated, in the model as in the library.) -/
+theorem key_too_long_fails_cleanly {d : Doc} {F : Forest} {l : Loc} {h t : Nat} {key : List Byte} (w : WFG d F)
+    (hs : StrOK d (d.strRefs F)) (gok : PL.GeoOK d.g) (hv : d.get l = .obj h t) (habs : d.findKey l key = none)
+    (hnew : ∀ x ∈ d.strings, x.bytes ≠ key) (hlong : d.maxStrLen < key.length) :
+    (d.getOrAddMember l key false).1 = none ∧ (d.getOrAddMember l key false).2.overflowed = true ∧
+    WFG (d.getOrAddMember l key false).2 F ∧
+    StrOK (d.getOrAddMember l key false).2 ((d.getOrAddMember l key false).2.strRefs F) ∧
+    abs (d.getOrAddMember l key false).2 = abs d ∧ (d.getOrAddMember l key false).2.strings = d.strings ∧
+    (d.getOrAddMember l key false).2.maxStrLen = d.maxStrLen := by
+  rw [getOrAddMember_obj hv habs]
+  have h1 := addMember_key_too_long d l key hnew hlong
+  have hm := (sameId_addMember d l key false).2.2.2
+  generalize hal : d.addMember l key false = r at h1 hm
+  obtain ⟨m, d'⟩ := r
+  simp only at h1 hm; subst h1
+  obtain ⟨hg, ho⟩ := addMember_none gok w.pool hal
+  obtain ⟨a, b, c⟩ := wfg_of_grow w hs hg
+  exact ⟨rfl, ho, a, b, c, hg.strings, hm⟩
+
+/-- the limit is a constant of the document: no operation of a history changes it (nor the allocator identity, the
+    string overhead, the geometry) -/
+theorem limit_constant_history {d d' : Doc} {F F' : Forest} (h : Hist d F d' F') : d'.maxStrLen = d.maxStrLen := by
+  induction h with
+  | nil d F => rfl
+  | cons op _ _ ih =>
+    refine ih.trans ?_
+    cases op with
+    | add l => exact (sameId_addElement _ l).2.2.2
+    | clear l => exact (sameId_clearV _ l).2.2.2
+    | put l a => exact (sameId_setArg _ l a).2.2.2
 
 /-! ## Reference counts never wrap -/
 
@@ -186,15 +388,91 @@ theorem w4f : WFG e4f F3 := by
   exact a
 theorem s4f : StrOK e4f (e4f.strRefs F3) := ⟨by decide +kernel, by decide +kernel, by decide +kernel, by decide +kernel⟩
 
-/-- a 300-byte string (longer than any 1-byte length field could describe) is copied without complaint -/
+/-! the length limit: `["hi"]` resp. `[null]` resp. `{}` with `maxStrLen := 3` -/
+def e4m : Doc := { e4 with maxStrLen := 3 }
+theorem w4m : WFG e4m F3 := by
+  obtain ⟨a, _, _⟩ := wfg_frame (d' := e4m) w4 rfl rfl (fun _ _ => rfl)
+    (fun l0 h0 e he => ⟨rfl, (w4.ext l0 h0 e he).2.1⟩)
+    (w4.pool.congr rfl rfl rfl rfl) (fun x hx => w4.live x hx) (StrOK_congr (d := e4) rfl rfl s4) (fun _ _ => rfl)
+  exact a
+theorem s4m : StrOK e4m (e4m.strRefs F3) := ⟨by decide +kernel, by decide +kernel, by decide +kernel, by decide +kernel⟩
+def abcd : List Byte := [0x61, 0x62, 0x63, 0x64]
+def abc : List Byte := [0x61, 0x62, 0x63]
+
+/-- 4 bytes with the limit 3: refused, the document is `e4m` with the flag set, the allocator log did not move -/
+example : (e4m.saveString abcd).1 = none ∧ (e4m.saveString abcd).2 = { e4m with overflowed := true } ∧
+    (e4m.saveString abcd).2.pl.log = e4m.pl.log ∧ (e4m.saveString abcd).2.pl.calls = e4m.pl.calls := by
+  obtain ⟨a, b, _, _, c, e, _⟩ := string_length_limit_is_clean_edge e4m abcd (by decide +kernel) (by decide +kernel)
+  exact ⟨a, b, c, e⟩
+example : (e4m.saveString abcd).1 = none := by decide +kernel
+example : WFG (e4m.saveString abcd).2 F3 ∧ abs (e4m.saveString abcd).2 = abs e4m := by
+  obtain ⟨a, _, c, _⟩ := string_length_limit_keeps_invariants w4m s4m (s := abcd) (by decide +kernel) (by decide +kernel)
+  exact ⟨a, c⟩
+/-- 3 bytes with the limit 3: stored -/
+example : (e4m.saveString abc).1 = some 1 :=
+  string_at_limit_succeeds e4m abc (by decide +kernel) (by decide +kernel) (by decide +kernel)
+example : (e4m.saveString abc).1 = some 1 := by decide +kernel
+/-- … also after the refusal of the 4 bytes -/
+example : ((e4m.saveString abcd).2.saveString abc).1 = some 1 :=
+  (usable_after_length_failure e4m abcd abc (by decide +kernel) (by decide +kernel)).2.2
+    (by decide +kernel) (by decide +kernel) (by decide +kernel)
+example : ((e4m.saveString abcd).2.saveString abc).1 = some 1 := by decide +kernel
+/-- with the default limit 65535 a 300-byte string is stored -/
 example : (e4.saveString (List.replicate 300 0x61)).1 = some 1 :=
-  model_has_no_string_length_limit e4 _ (by decide +kernel) (by decide +kernel)
+  string_at_limit_succeeds e4 _ (by decide +kernel) (by decide +kernel) (by decide +kernel)
+/-- the two causes: `string_copy_fails_iff` on the too-long string -/
+example : (∀ x ∈ e4m.strings, x.bytes ≠ abcd) ∧
+    (e4m.maxStrLen < abcd.length ∨ e4m.pl.failsAt (e4m.pl.calls + 1) = true) :=
+  (string_copy_fails_iff e4m abcd).1 (by decide +kernel)
+
+/-- `limit_constant_history` on the history that builds `["hi","hi"]`: the limit is still the one of the start -/
+example : d4.maxStrLen = e1.maxStrLen := limit_constant_history hist4
+
+/-- `[null]` with the limit 3: `set("abcd")` on element 0 fails, the element stays null, the value is `[null]` -/
+def e3m : Doc := { e3 with maxStrLen := 3 }
+theorem w3m : WFG e3m F3 ∧ abs e3m = abs e3 := by
+  obtain ⟨a, _, c⟩ := wfg_frame (d' := e3m) w3.1 rfl rfl (fun _ _ => rfl)
+    (fun l0 h0 e he => ⟨rfl, (w3.1.ext l0 h0 e he).2.1⟩)
+    (w3.1.pool.congr rfl rfl rfl rfl) (fun x hx => w3.1.live x hx) (StrOK_congr (d := e3) rfl rfl s3) (fun _ _ => rfl)
+  exact ⟨a, c⟩
+theorem s3m : StrOK e3m (e3m.strRefs F3) := ⟨by decide +kernel, by decide +kernel, by decide +kernel, by decide +kernel⟩
+example : (e3m.setArg (.slot 0) (.strCopied abcd)).1 = false ∧
+    (e3m.setArg (.slot 0) (.strCopied abcd)).2.overflowed = true ∧
+    abs (e3m.setArg (.slot 0) (.strCopied abcd)).2 = .arr [.null] ∧
+    (e3m.setArg (.slot 0) (.strCopied abcd)).2.pl = e3m.pl ∧
+    (e3m.setArg (.slot 0) (.strCopied abcd)).2.get (.slot 0) = .null := by
+  obtain ⟨a, _, b, _, _, c, e, _, _, f⟩ :=
+    copied_string_too_long_fails_cleanly (l := .slot 0) w3m.1 s3m (s := abcd) (by decide +kernel) (by decide +kernel)
+  refine ⟨a, b, ?_, e, f (by decide +kernel)⟩
+  rw [c, w3m.2]; exact w3.2
+example : (e3m.setArg (.slot 0) (.strCopied abcd)).1 = false := by decide +kernel
+example : (e3m.setArg (.slot 0) (.strCopied abc)).1 = true := by decide +kernel
+
+/-- `{}` with the limit 3: `obj["abcd"]` (copied key) fails cleanly, `obj["abc"]` adds the member -/
+def eom : Doc := ({ g := g0, alloc := 0, pl := PL.init g0, maxStrLen := 3 } : Doc).set .root (.obj 255 255)
+theorem wom : WFG eom .nil := by
+  refine ⟨⟨rfl, rfl⟩, List.nodup_nil, fun i hi => (by cases hi), PL.init_inv gok [], fun i hi => (by cases hi), ?_⟩
+  intro l hl e he
+  rcases mem_holders.1 hl with h | ⟨j, hj, _⟩
+  · subst h; cases he
+  · cases hj
+theorem som : StrOK eom (eom.strRefs .nil) := ⟨by decide +kernel, by decide +kernel, by decide +kernel, by decide +kernel⟩
+example : (eom.getOrAddMember .root abcd false).1 = none ∧ (eom.getOrAddMember .root abcd false).2.overflowed = true ∧
+    WFG (eom.getOrAddMember .root abcd false).2 .nil ∧ abs (eom.getOrAddMember .root abcd false).2 = abs eom ∧
+    (eom.getOrAddMember .root abcd false).2.strings = [] := by
+  obtain ⟨a, b, c, _, e, f, _⟩ := key_too_long_fails_cleanly (l := .root) (h := 255) (t := 255) (key := abcd) wom som gok rfl
+    (by decide +kernel) (by decide +kernel) (by decide +kernel)
+  exact ⟨a, b, c, e, f⟩
+example : (eom.getOrAddMember .root abcd false).1 = none := by decide +kernel
+example : (eom.getOrAddMember .root abc false).1 = some 1 := by decide +kernel
+/-- a LINKED key is not copied, so its length does not matter -/
+example : (eom.getOrAddMember .root abcd true).1 = some 1 := by decide +kernel
 
 /-- `string_copy_fails_cleanly` / `copied_string_set_fails_cleanly` on `["hi"]` with a failing allocator -/
 example : (e4f.saveString [0x61]).1 = none := by decide +kernel
 example : (e4f.saveString [0x61]).2.overflowed = true ∧ (e4f.saveString [0x61]).2.strings = e4f.strings ∧
     (e4f.saveString [0x61]).2.pl.log = s!"A{1 + 15}!" :: e4f.pl.log := by
-  obtain ⟨a, _, _, b, _, _, _, _, _, _, _, c⟩ := string_copy_fails_cleanly (d := e4f) (s := [0x61]) (by decide +kernel)
+  obtain ⟨a, _, _, b, _, _, _, _, _, _, _, c⟩ := string_copy_fails_cleanly (d := e4f) (s := [0x61]) (by decide +kernel) (by decide +kernel)
   exact ⟨a, b, c⟩
 example : (e4f.setArg (.slot 0) (.strCopied [0x61])).1 = false ∧
     abs (e4f.setArg (.slot 0) (.strCopied [0x61])).2 = abs e4f := by
